@@ -31,10 +31,10 @@ CHECKS = {
          "Held on the executions observed: for every batch method the batch call and the documented single calls leave equal worlds, counts, Q-query contents and (for creation) handle sequences.",
          "An empty batch exchange may return 0 (documented as 'affected entities')."),
  "C09": ("fault_enumeration", "4 C09", "lock ledger (trace monitor) + enumeration of every structural entry point x lock source x release path with before/after snapshots",
-         "Every row of the entry-point table (36 ID-based rows) is exercised in every run under every lock source (plain, cached, batch-result, nested up to the limit, removal callback) and must panic leaving public snapshot + hidden digest unchanged; the lock ledger is compared after every open/release and, in mode ledger, after every operation under restricted listeners; world states are sampled.",
+         "Every row of the entry-point table (36 ID-based rows; generic entry points with unseen types in every second case) is exercised in every run under every lock source (plain, cached, batch-result, nested up to the limit, removal callback) and must panic leaving public snapshot + hidden digest unchanged; the lock ledger is compared after every open/release and, in mode ledger, after every operation under restricted listeners; world states are sampled.",
          "World states at which locks are taken are sampled; generic entry points route through the same core functions and are exercised by C18."),
  "C10": ("fault_enumeration", "4 C10", "fault table of illegal-argument classes x operations injected at sampled states, with full before/after snapshot equality for single-entity operations",
-         "Every row of the fault table (89 rows + 4 batch-query probes) is exercised in every run; each call must panic; single-entity failures must leave the public snapshot, the hidden core digest and the invariants unchanged, and the history continues under the model.",
+         "Every row of the fault table (110 rows + 4 batch-query probes, enforced per run) is exercised in every run; each call must panic; single-entity failures must leave the public snapshot, the hidden core digest and the invariants unchanged, and the history continues under the model.",
          "World states are sampled; batch operations are only required to panic."),
  "C11": ("exploration", "4 C11", "offline trace checker over the recorded listener event stream against the model's per-entity before/after diff",
          "Held on the executions observed: exactly one truthful event per changed entity, none otherwise, with the documented delivery timing for single, batch and Q-variant operations.",
